@@ -34,7 +34,14 @@ B = ("E", "SE", "S")
 CALLS = []
 
 
-def stub_eval(outcome):
+VALUES = {
+    "list": [1, "two"], "zero": 0, "float-zero": 0.0, "false": False, "true": True, "empty-string": "", "empty-bytes": b"",
+    "empty-list": [], "empty-tuple": (), "empty-dict": {}, "none": None, "symbol": Symbol("u_sym"), "int-model": Integer(0),
+    "string-model": String(""), "quoted-call": Expression([Symbol("u_f"), Integer(1)]),
+}
+
+
+def stub_eval(outcome, value=None):
     def ctx(comp):
         @contextlib.contextmanager
         def cm():
@@ -43,7 +50,7 @@ def stub_eval(outcome):
             def ev(model):
                 CALLS.append(model)
                 if outcome == "value":
-                    return [1, "two"]
+                    return [1, "two"] if value is None else VALUES[value]
                 if outcome == "hy-error":
                     raise HySyntaxError("scripted", None, None, None)
                 if outcome == "other":
@@ -107,6 +114,17 @@ def run(chk):
                     chk.ob(name + "/HyInternalError is not reclassified as HyEvalError",
                            (not out.ok) and not isinstance(out.exc, HyEvalError) and "HyInternalError" in repr(out.exc),
                            "structural", "arity_bounded", detail=repr(out.exc))
+    # do-mac compiles the promoted value whatever it is (falsy values included)
+    for vname, val in VALUES.items():
+        toks = sx.tokens(("SE",))
+        out = sx.run_rule(E(S("do-mac"), *toks), scope_ctx=stub_eval("value", vname))
+        want = sx.run_rule(hy.as_model(val))
+        ok = out.ok and want.ok and not out.compiled and ast.dump(ast.Module(body=out.result.stmts + [ast.Expr(out.result.force_expr)], type_ignores=[])) == \
+            ast.dump(ast.Module(body=want.result.stmts + [ast.Expr(want.result.force_expr)], type_ignores=[])) and \
+            (out.result._expr is None) == (want.result._expr is None)
+        chk.case(("do-mac-value", vname))
+        chk.ob(f"staging/do-mac/value {vname}: emission == compilation of as_model(value)", ok, "structural", "proved",
+               detail=(sx.show(out.result) if out.ok else repr(out.exc)) + " vs " + (sx.show(want.result) if want.ok else repr(want.exc)))
     # defmacro
     from hy.reader import mangle
     import hy.macros as hmac
